@@ -226,6 +226,8 @@ func checkC02(r *core.Run, p *core.Program) {
 	r.Rule("C02.latlong", "no float-to-integer conversion in the CTE codec is applied directly to an arithmetic expression (a product such as latitude*100 truncates 1.13*100 = 112.99… to 112): the expression is rounded first.")
 	r.Rule("C02.split-sign", "a writer that prints a signed integer as separate quotient and remainder groups (value/K and value%K) tests the sign of the value itself and writes it explicitly: otherwise values between -K and 0 lose their sign.")
 	r.Rule("C02.encoder-state", "the CTE encoder's reusable parts (array engine, encoder context, writer, indenter) re-initialise, on every path of their per-array / per-document entry point, every field they modify while encoding (a string buffer or chunk counter that survives makes the next string or array carry the previous one's content).")
+	r.Rule("C02.comments", "the CTE encoder writes the text of a comment as it is (no escaping), so the validator has to constrain it before forwarding: RulesEventReceiver.OnComment hands the text to a validating function (a multi-line comment containing `*/`, an unbalanced `/*` or ending in `/`, and a single-line comment containing a line feed, do not read back as that comment).")
+	checkC02Comments(r, p)
 	r.NotDecide("escaping decisions for arbitrary code points; float and decimal text; pretty-printer layout; comment text; time field text")
 
 	g, err := LoadLexerGrammar(p.RepoDir)
@@ -425,4 +427,51 @@ func checkC02(r *core.Run, p *core.Program) {
 			checkResetSpec(r, p, "C02.encoder-state", spec)
 		}
 	}
+}
+
+func checkC02Comments(r *core.Run, p *core.Program) {
+	enc := findFn(p, "cte", "EncoderEventReceiver.OnComment")
+	val := findFn(p, "rules", "RulesEventReceiver.OnComment")
+	if enc == nil || val == nil {
+		r.Undecided("C02.comments", "cte.EncoderEventReceiver.OnComment / rules.RulesEventReceiver.OnComment")
+		return
+	}
+	// does the encoder write the text through an escaping writer?
+	einfo := enc.Pkg.TypesInfo
+	textParam := enc.Obj.Type().(*types.Signature).Params().At(1)
+	verbatim := false
+	inspectCalls(einfo, enc.Decl.Body, func(call *ast.CallExpr, c *types.Func) {
+		if c == nil {
+			return
+		}
+		for _, a := range call.Args {
+			if objOf(einfo, a) == textParam && !strings.Contains(c.Name(), "Escaped") && !strings.Contains(c.Name(), "Quoted") {
+				verbatim = true
+			}
+		}
+	})
+	if !verbatim {
+		r.Pass("C02.comments", "cte.EncoderEventReceiver.OnComment|text is escaped by the encoder", enc.Decl.Pos(), "")
+		return
+	}
+	vinfo := val.Pkg.TypesInfo
+	vtext := val.Obj.Type().(*types.Signature).Params().At(1)
+	validated := false
+	inspectCalls(vinfo, val.Decl.Body, func(call *ast.CallExpr, c *types.Func) {
+		if c == nil {
+			return
+		}
+		if sel, ok := call.Fun.(*ast.SelectorExpr); ok {
+			if fv := fieldOf(vinfo, sel.X); fv != nil && fv.Name() == "receiver" {
+				return // the forwarding call
+			}
+		}
+		for _, a := range call.Args {
+			if mentionsObj(vinfo, a, vtext) {
+				validated = true
+			}
+		}
+	})
+	r.Check("C02.comments", "(*rules.RulesEventReceiver).OnComment|comment text validated before forwarding", val.Decl.Pos(), validated,
+		"the text of a comment is forwarded without any validation and the CTE encoder writes it verbatim: a multi-line comment ending in `/` is written as `/*a/*/`, which the decoder rejects, and a single-line comment containing a line feed turns its second line into document content")
 }
